@@ -112,6 +112,17 @@ def check(ctx):
                   "entry := '0.0' if entry == '0.0' else (gamma-1)*(entry)/kerg/npar -- same factor as the RHS wrap, sentinel preserved",
                   expected="'0.0' if e == '0.0' else f'(gamma - 1.0) * ( {e} ) / kerg / npar'", found=found)
 
+    # every store into jacrhs precedes every consumer (CSR builder, Jacobian(...)): all layouts see the same final entries
+    from ..odemodel import write_read_order
+    last, first = write_read_order(m, "jacrhs")
+    if last is None or first is None:
+        ctx.unrec("R3", "jacrhs:write-before-use", (FILE, m.func.lineno), "cannot locate the last store into jacrhs / its first consumer")
+    else:
+        ctx.check(last.seq < first[0], "R3", "jacrhs:write-before-use", (FILE, last.line),
+                  "jacrhs is complete (thermal prefactor included) before the sparse arrays and the Jacobian object are built from it" if last.seq < first[0] else
+                  f"jacrhs is still modified at line {last.line} after line {first[1]} where {first[2]}: the sparse (CSR) values miss that update while the dense layout has it",
+                  expected="all stores into jacrhs, then the CSR loops", found=f"last store line {last.line}, first consumer line {first[1]}")
+
     # ---- R4 flatten / decode -------------------------------------------------------
     init = [s for s in m.sites if s.array == "jacrhs" and s.kind == "init"]
     if len(init) == 1:
@@ -389,6 +400,8 @@ def _r5(ctx, m):
                     a = bound.get(fld)
                     src = ast.unparse(a) if a is not None else "missing"
                     ok = a is not None and (src == f"network.{fld}" or src.startswith(f"network.{fld} or "))
+                    if fld == "reactions" and src == "network.reaction_list":
+                        ok = True      # the same reactions; whether the dummy fill-in is counted is C03.R4 (sizes)
                     ctx.check(ok, "R5", f"{cls}.{meth}:NetworkInfo.{fld}", (file, c.lineno),
                               f"field `{fld}` receives network.{fld}", expected=f"network.{fld}", found=src[:80])
     ctx.floor("R5", "NetworkInfo(...) call sites", n, 2)
